@@ -1,1 +1,191 @@
-//! (reserved for hooks of this area; cargo feature `verif_hooks`)
+//! Lexer-area hooks (cargo feature `verif_hooks`): read-only text views of the regex front end
+//! (`lexer::re`), the build-time NFA/DFA (`lexer::nfa`, `lexer::dfa`) and a reference matcher
+//! (the `regex` crate lalrpop already depends on) for the verification harness.
+#![allow(dead_code, missing_docs)]
+
+use crate::lexer::re;
+use crate::verif_hooks::hex;
+use regex_syntax::hir::{Class, Hir, HirKind};
+
+pub use crate::lexer::dfa::verif_hooks::{build_dfa_dump, remove_overlap_dump};
+pub use crate::lexer::nfa::verif_hooks::nfa_dump;
+
+/// `parse_literal` (quoted terminal) or `parse_regex` (regex terminal), panics caught.
+pub fn parse_terminal(text: &str, literal: bool) -> Result<Hir, String> {
+    if literal {
+        std::panic::catch_unwind(|| re::parse_literal(text)).map_err(|_| "panic".to_string())
+    } else {
+        re::parse_regex(text).map_err(|e| e.to_string())
+    }
+}
+
+/// S-expression of a HIR:
+/// `(empty) | (lit b…) | (cls (lo hi)…) | (clsb (lo hi)…) | (look n) | (rep min max|inf greedy sub)
+///  | (cap named sub) | (cat e…) | (alt e…)`; literal bytes and range ends are decimal numbers.
+pub fn hir_sexp(h: &Hir) -> String {
+    match h.kind() {
+        HirKind::Empty => "(empty)".to_string(),
+        HirKind::Literal(l) => {
+            let mut s = String::from("(lit");
+            for b in l.0.iter() {
+                s.push_str(&format!(" {b}"));
+            }
+            s.push(')');
+            s
+        }
+        HirKind::Class(Class::Unicode(c)) => {
+            let mut s = String::from("(cls");
+            for r in c.iter() {
+                s.push_str(&format!(" ({} {})", r.start() as u32, r.end() as u32));
+            }
+            s.push(')');
+            s
+        }
+        HirKind::Class(Class::Bytes(c)) => {
+            let mut s = String::from("(clsb");
+            for r in c.iter() {
+                s.push_str(&format!(" ({} {})", r.start(), r.end()));
+            }
+            s.push(')');
+            s
+        }
+        HirKind::Look(l) => format!("(look {})", l.as_repr()),
+        HirKind::Repetition(r) => format!(
+            "(rep {} {} {} {})",
+            r.min,
+            match r.max {
+                Some(m) => m.to_string(),
+                None => "inf".to_string(),
+            },
+            if r.greedy { 1 } else { 0 },
+            hir_sexp(&r.sub)
+        ),
+        HirKind::Capture(c) => format!(
+            "(cap {} {})",
+            if c.name.is_some() { 1 } else { 0 },
+            hir_sexp(&c.sub)
+        ),
+        HirKind::Concat(es) => {
+            let mut s = String::from("(cat");
+            for e in es {
+                s.push(' ');
+                s.push_str(&hir_sexp(e));
+            }
+            s.push(')');
+            s
+        }
+        HirKind::Alternation(es) => {
+            let mut s = String::from("(alt");
+            for e in es {
+                s.push(' ');
+                s.push_str(&hir_sexp(e));
+            }
+            s.push(')');
+            s
+        }
+    }
+}
+
+/// `ok <hir sexp>` or `error <hex message>`
+pub fn hir_dump(text: &str, literal: bool) -> String {
+    match parse_terminal(text, literal) {
+        Ok(h) => format!("ok {}", hir_sexp(&h)),
+        Err(e) => format!("error {}", hex(&e)),
+    }
+}
+
+/// The two strings `intern_token::compile` derives from a terminal: `format!("{hir}")` (what the
+/// runtime `MatcherBuilder` is given) and its `{:?}` quoting (what is written into the generated
+/// source). `None` if the terminal does not parse.
+pub fn rendered_regex(text: &str, literal: bool) -> Option<(String, String)> {
+    let h = parse_terminal(text, literal).ok()?;
+    let regex_str = format!("{h}");
+    let quoted = format!("{regex_str:?}");
+    Some((regex_str, quoted))
+}
+
+/// Reference matcher: for every pattern (Rust regex syntax, crate defaults = Unicode mode) and
+/// every pair of char-boundary offsets `o <= e` of `text`, whether the pattern matches
+/// `text[o..e]` *exactly* according to the `regex` crate. One line per non-empty cell:
+/// `o e i j k…` (pattern indices ascending). `Err(i)` if pattern `i` does not compile.
+pub fn regex_match_table(patterns: &[&str], text: &str) -> Result<Vec<(usize, usize, Vec<usize>)>, usize> {
+    let mut res = Vec::with_capacity(patterns.len());
+    for (i, p) in patterns.iter().enumerate() {
+        match regex::Regex::new(&format!(r"\A(?:{p})\z")) {
+            Ok(r) => res.push(r),
+            Err(_) => return Err(i),
+        }
+    }
+    let mut bounds: Vec<usize> = text.char_indices().map(|(i, _)| i).collect();
+    bounds.push(text.len());
+    let mut out = vec![];
+    for (bi, &o) in bounds.iter().enumerate() {
+        for &e in &bounds[bi..] {
+            let sub = &text[o..e];
+            let set: Vec<usize> = res
+                .iter()
+                .enumerate()
+                .filter(|(_, r)| r.is_match(sub))
+                .map(|(i, _)| i)
+                .collect();
+            if !set.is_empty() {
+                out.push((o, e, set));
+            }
+        }
+    }
+    Ok(out)
+}
+
+/// Does `pattern` (Rust regex syntax) match `text` exactly, per the `regex` crate?
+pub fn regex_full_match(pattern: &str, texts: &[&str]) -> Option<Vec<bool>> {
+    let r = regex::Regex::new(&format!(r"\A(?:{pattern})\z")).ok()?;
+    Some(texts.iter().map(|t| r.is_match(t)).collect())
+}
+
+/// `Hir::literal(bytes)` — lets the harness hand arbitrary (also non-UTF-8) literals to `Nfa::expr`.
+pub fn hir_literal(bytes: &[u8]) -> Hir {
+    Hir::literal(bytes.to_vec())
+}
+
+/// Every scalar value at which membership in some class/literal of the HIRs can change: range starts,
+/// range ends + 1, literal characters and their successors. One representative per block of the
+/// induced partition suffices to decide questions about strings over these HIRs.
+pub fn hir_breakpoints(hs: &[Hir]) -> Vec<u32> {
+    fn walk(h: &Hir, out: &mut Vec<u32>) {
+        match h.kind() {
+            HirKind::Empty | HirKind::Look(_) => {}
+            HirKind::Literal(l) => {
+                for c in String::from_utf8_lossy(&l.0).chars() {
+                    out.push(c as u32);
+                    out.push(c as u32 + 1);
+                }
+            }
+            HirKind::Class(Class::Unicode(c)) => {
+                for r in c.iter() {
+                    out.push(r.start() as u32);
+                    out.push(r.end() as u32 + 1);
+                }
+            }
+            HirKind::Class(Class::Bytes(c)) => {
+                for r in c.iter() {
+                    out.push(r.start() as u32);
+                    out.push(r.end() as u32 + 1);
+                }
+            }
+            HirKind::Repetition(r) => walk(&r.sub, out),
+            HirKind::Capture(c) => walk(&c.sub, out),
+            HirKind::Concat(es) | HirKind::Alternation(es) => {
+                for e in es {
+                    walk(e, out);
+                }
+            }
+        }
+    }
+    let mut v = vec![0];
+    for h in hs {
+        walk(h, &mut v);
+    }
+    v.sort();
+    v.dedup();
+    v
+}
